@@ -1,6 +1,7 @@
 """C17: GC only touches eligible files and runs at most once per bucket."""
 from lib import l2common, gcoracle
 from lib.props import c01
+from lib import schedcommon as sc
 
 PROPS = "props/C17.v"
 PID = "C17"
@@ -12,6 +13,11 @@ ASSUMPTIONS = c01.ASSUMPTIONS + ["record timestamps are set 30 days in the past 
 
 def run(ctx):
     res = c01.run_mode(ctx, MODE, 120 if ctx.tier == "quick" else 4000, PID, oracle=gcoracle.c17_oracle)
+    rs = sc.run_sched(ctx, "double", 0, ctx.seed)
+    for r in rs:
+        res["spec_violations"] += sc.scenario_oracle(r)
+    res["evaluations"] += len(rs)
+    res["dist"]["forced schedules: double gc request"] = len(rs)
     res["extra"]["gc_requests"] = sum(1 for c in ctx.last_cases for o in c["ops"] if o["op"] == "CR")
     return res
 
@@ -33,3 +39,14 @@ def is_known(v, f):
 def replay(ctx, path):
     c01.PID, c01.MODE = PID, MODE
     return c01.replay(ctx, path)
+
+
+def replay_finding_sched(ctx, f):
+    which = {"two-gc-passes": "double", "acked-write-lost-at-shutdown": "closeflush"}.get(f.get("trigger"))
+    if not which:
+        return None
+    return any(v["kind"] == f["trigger"] for r in sc.run_sched(ctx, which, 0, 999) for v in sc.scenario_oracle(r))
+
+
+def replay_finding(ctx, f):
+    return replay_finding_sched(ctx, f)
